@@ -78,6 +78,16 @@ static void qs_popat1(void *c, res_t *r) { char *p = QS_STACK ? SS->popat(SS, 1,
 static void qs_clear(void *c, res_t *r) { if (QS_STACK) SS->clear(SS); else QQ->clear(QQ); rfmt(r, "ok"); }
 static void qs_size(void *c, res_t *r) { (void)c; rfmt(r, "-"); }
 static cop_t QS_OPS[] = {{"pushstr(x)", qs_push}, {"pushstr(y)", qs_push2}, {"popstr", qs_pop}, {"getstr", qs_get}, {"popat(1)", qs_popat1}, {"clear", qs_clear}};
+/* the integer convenience layer of queue and stack (pushint / popint / getint): elements are 8-byte integers */
+static void *qi_make(int init) { if (QS_STACK) { qstack_t *s = qstack(QSTACK_THREADSAFE); if (init == 1) { s->pushint(s, 7); s->pushint(s, 8); } if (init == 2) { s->pushint(s, 7); s->setsize(s, 2); } return s; } qqueue_t *q = qqueue(QQUEUE_THREADSAFE); if (init == 1) { q->pushint(q, 7); q->pushint(q, 8); } if (init == 2) { q->pushint(q, 7); q->setsize(q, 2); } return q; }
+static void qi_digest(void *c, char *out) { qlist_t *l = qs_list(c); char *p = out; p += sprintf(p, "n=%zu ds=%zu max=%zu:", l->size(l), l->datasize(l), l->max); qlist_obj_t o; memset(&o, 0, sizeof o); int n = 0; l->lock(l); while (l->getnext(l, &o, false) && n++ < 10) p += sprintf(p, "%lld/%zu,", o.size == 8 ? (long long)*(int64_t *)o.data : -1LL, o.size); l->unlock(l); }
+static void qi_push9(void *c, res_t *r) { rfmt(r, "%d", QS_STACK ? SS->pushint(SS, 9) : QQ->pushint(QQ, 9)); }
+static void qi_pushneg(void *c, res_t *r) { rfmt(r, "%d", QS_STACK ? SS->pushint(SS, -1234567890123LL) : QQ->pushint(QQ, -1234567890123LL)); }
+static void qi_pop(void *c, res_t *r) { rfmt(r, "%lld", (long long)(QS_STACK ? SS->popint(SS) : QQ->popint(QQ))); }
+static void qi_get(void *c, res_t *r) { rfmt(r, "%lld", (long long)(QS_STACK ? SS->getint(SS) : QQ->getint(QQ))); }
+static void qi_popat1(void *c, res_t *r) { size_t sz = 0; int64_t *p = QS_STACK ? SS->popat(SS, 1, &sz) : QQ->popat(QQ, 1, &sz); rfmt(r, "%lld/%zu", p ? (long long)*p : -1LL, sz); free(p); }
+static void qi_getat0(void *c, res_t *r) { size_t sz = 0; int64_t *p = QS_STACK ? SS->getat(SS, 0, &sz, true) : QQ->getat(QQ, 0, &sz, true); rfmt(r, "%lld/%zu", p ? (long long)*p : -1LL, sz); free(p); }
+static cop_t QI_OPS[] = {{"pushint(9)", qi_push9}, {"pushint(-1234567890123)", qi_pushneg}, {"popint", qi_pop}, {"getint", qi_get}, {"popat(1)", qi_popat1}, {"getat(0)", qi_getat0}, {"clear", qs_clear}};
 
 /* ------------------------------------------------------------ qtreetbl */
 static void *t_make(int init) { qtreetbl_t *t = qtreetbl(QTREETBL_THREADSAFE); if (init) { t->putstr(t, "a", "1"); t->putstr(t, "b", "2"); } return t; }
@@ -153,13 +163,15 @@ static int set_container(const char *name) {
     else if (!strcmp(name, "qlist")) CONT = (cont_t){"qlist", l_make, l_digest, l_destroy, l_mutex, L_OPS, NOPS_OF(L_OPS)};
     else if (!strcmp(name, "qqueue")) { QS_STACK = 0; CONT = (cont_t){"qqueue", qs_make, qs_digest, qs_destroy, qs_mutex, QS_OPS, NOPS_OF(QS_OPS)}; }
     else if (!strcmp(name, "qstack")) { QS_STACK = 1; CONT = (cont_t){"qstack", qs_make, qs_digest, qs_destroy, qs_mutex, QS_OPS, NOPS_OF(QS_OPS)}; }
+    else if (!strcmp(name, "qqueue-int")) { QS_STACK = 0; CONT = (cont_t){"qqueue-int", qi_make, qi_digest, qs_destroy, qs_mutex, QI_OPS, NOPS_OF(QI_OPS)}; }
+    else if (!strcmp(name, "qstack-int")) { QS_STACK = 1; CONT = (cont_t){"qstack-int", qi_make, qi_digest, qs_destroy, qs_mutex, QI_OPS, NOPS_OF(QI_OPS)}; }
     else if (!strcmp(name, "qtreetbl")) CONT = (cont_t){"qtreetbl", t_make, t_digest, t_destroy, t_mutex, T_OPS, NOPS_OF(T_OPS)};
     else if (!strcmp(name, "qhashtbl")) CONT = (cont_t){"qhashtbl", h_make, h_digest, h_destroy, h_mutex, H_OPS, NOPS_OF(H_OPS)};
     else if (!strcmp(name, "qlisttbl")) { LT_UNIQUE = 0; CONT = (cont_t){"qlisttbl", lt_make, lt_digest, lt_destroy, lt_mutex, LT_OPS, NOPS_OF(LT_OPS)}; }
     else if (!strcmp(name, "qlisttbl-unique")) { LT_UNIQUE = 1; CONT = (cont_t){"qlisttbl-unique", lt_make, lt_digest, lt_destroy, lt_mutex, LT_OPS, NOPS_OF(LT_OPS)}; }
     else return -1;
     (void)qs_size;
-    CONT.ninit = (!strcmp(name, "qlist") || !strcmp(name, "qqueue") || !strcmp(name, "qstack")) ? 3 : 2;   /* third initial state: one element, size limit 2 */
+    CONT.ninit = (!strcmp(name, "qlist") || !strncmp(name, "qqueue", 6) || !strncmp(name, "qstack", 6)) ? 3 : 2;   /* third initial state: one element, size limit 2 */
     return 0;
 }
 
